@@ -12,6 +12,12 @@ CHECKS = {
  'C15': dict(cat='proof', tech='contract-based deductive verification: nibble expansion by bit-vectors (all 2^72 records), header/particle state machine by loop invariant with ghost rank/last-header functions and inductive lemmas; z3 + bounded compiled-kernel cross-check',
     text='_expand_to_short proved for every 9-byte record; _unpack_pack9 proved to write particle rank(r) of every non-header record r with position/velocity from the most recent header, return rank(N), for all streams starting with a valid header, any pos/vel selection; wrapper unpack_pack9 in 9 modes against the kernel contract; quantum lemma.',
     note='floats as reals (0.0005 = 1/2000); precondition leading header with cpd>=1; int64 counters mathematical; format constants as documented in the module', ref='6/C15'),
+ 'C06': dict(cat='proof', tech='contract-based deductive verification: real _tsc_scatter / cic_serial ASTs against a code-independent spline spec (floor-based 4-candidate sum, congruence wrap), loop invariant = additivity, per-axis lemmas + product-of-sums step, kernel lemmas in reals (partition of unity, non-negativity, shift); z3; bounded compiled-kernel cross-check',
+    text='For all particle sets, weights, grids >= 2 cells per axis (z may be 1 cell), offsets up to half a cell and positions in [0, BoxSize]: density_out[c] = density_in[c] + sum_n W_n A(px,cx) A(py,cy) A(pz,cz) with A the wrapped TSC/CIC spline; every subscript in bounds; int16/int32 index casts fit; conservation, non-negativity and whole-cell shift equivariance are proved as lemmas about A. float32/fastmath only bounded.',
+    note='floats as reals; grid axes < 32766; numba negative-index wrap; trusted: z3 (NRA/LIA), the sound hypothesis-slicing/abstraction stages of pyvc', ref='6/C06'),
+ 'C07': dict(cat='proof', tech='contract-based deductive verification: configuration logic of tsc_parallel (real AST slice), stripe-geometry lemma over the C06 spline spec, _tsc_parallel bounds/phases and prange footprint disjointness against the callee frame of _tsc_scatter; z3; deterministic per-stripe row-overlap replay',
+    text='Every accepted configuration with >1 thread and >1 stripe has an even number of stripes of width >= 3 cells (default choice accepted, all n1d/nthread/npartition, coord 0..2); lemma: distinct stripes of equal parity share no grid row for offsets in [0,1/2] incl. the periodic wrap and the closed last stripe (tight: refutable at width 2); _tsc_parallel: slices in bounds, iteration footprints pairwise disjoint, so every interleaving equals the sequential loop. The final summation over stripes (parallel == serial deposit) is a corollary of C06 additivity + the phase-cover lemma, not a machine-checked postcondition.',
+    note='floats as reals (tight at width 3); prange meta-theorem trusted; partition postcondition (C17) used as precondition of _tsc_parallel', ref='6/C07'),
 }
 NOT_YET = {}
 props = [json.loads(l) for l in open(os.path.join(HERE, 'properties.jsonl'))]
